@@ -297,13 +297,31 @@ func initFlowRearmBody(n int) func() {
 
 // invokeFlowRearmBody: an invoke flow is cancelled (what a reset does), cleared, and used again by the next
 // generation: every barrier of it waits for its arrivals again and returns nil after them.
-func invokeFlowRearmBody(k int) func() {
+func invokeFlowRearmBody(k int) func() { return invokeFlowRearm(k, true) }
+
+// invokeFlowRearm with clear=false: cancelled and re-armed without a clear - the cancellation stays in force at every
+// barrier of the flow.
+func invokeFlowRearm(k int, clear bool) func() {
 	return func() {
 		f := core.NewInvokeFlowSynchronization()
 		r := &flowRec{arrived: map[string]int{}}
 		sched.Cur().Values["rec"] = r
 		cErr := fmt.Errorf("cancelled")
 		for round := 0; round < 2; round++ {
+			if round == 1 && !clear {
+				f.InitializeBarriers()
+				for _, aw := range []struct {
+					name string
+					fn   func() error
+				}{{"response", f.AwaitRuntimeResponse}, {"runtimeReady", f.AwaitRuntimeReady}, {"agentReady", f.AwaitAgentsReady}} {
+					err := aw.fn()
+					r.trace = append(r.trace, "await:"+aw.name+"="+errStr(err))
+					if err != cErr {
+						r.failf("1", "flow-cancel-lost-on-rearm:"+aw.name, "the flow was cancelled and re-armed without being cleared: await on %s returned %s, expected the cancellation error", aw.name, errStr(err))
+					}
+				}
+				break
+			}
 			r.arrived = map[string]int{}
 			r.cancelBegun = false
 			f.InitializeBarriers()
@@ -328,7 +346,9 @@ func invokeFlowRearmBody(k int) func() {
 			}
 			if round == 0 {
 				f.CancelWithError(cErr)
-				f.Clear()
+				if clear {
+					f.Clear()
+				}
 			}
 		}
 		sched.Finish()
@@ -356,6 +376,7 @@ func flowScenarios(tier string) []hx.Scenario {
 		if n <= 2 {
 			add(fmt.Sprintf("initflow/agents=%d/round,cancel,clear,round", n), initFlowRearmBody(n), 1)
 			add(fmt.Sprintf("invokeflow/agents=%d/round,cancel,clear,round", n), invokeFlowRearmBody(n), 1)
+			add(fmt.Sprintf("invokeflow/agents=%d/round,cancel,rearm-without-clear", n), invokeFlowRearm(n, false), 1)
 		}
 		add(fmt.Sprintf("invokeflow/agents=%d/rounds=2", n), invokeFlowBody(n, 2, false), b)
 		add(fmt.Sprintf("invokeflow/agents=%d/rounds=2/cancel", n), invokeFlowBody(n, 2, true), b)
